@@ -22,7 +22,7 @@ func init() {
 		"non-trivial = differs from base; distinct = (source hash, document)"
 }
 
-var c15Devs = []string{"SIZED_INT_ENUM_REJECTS_ALL", "SIZED_BOUNDS_STRIPPED_FROM_SHARED_SCHEMA"}
+var c15Devs = []string{"SIZED_INT_ENUM_REJECTS_ALL", "SIZED_BOUNDS_STRIPPED_FROM_SHARED_SCHEMA", "INT_BOUND_TRUNCATED"}
 
 func bi(s string) *big.Int {
 	n, _ := new(big.Int).SetString(s, 10)
@@ -124,6 +124,21 @@ func c15Shapes(level int) []c15Shape {
 			}
 		}
 	}
+	// bounds that are not integers (the admitted integers are those of the interval; the exact bound never is): inclusive and exclusive,
+	// next to a type limit and away from it
+	fr := func(name string, s J, lo, hi int64) {
+		s["type"] = "integer"
+		out = append(out, c15Shape{"fractional/" + name, s, big.NewInt(lo), big.NewInt(hi)})
+	}
+	fr("min=0,max=254.6", J{"minimum": 0, "maximum": 254.6}, 0, 254)
+	fr("min=0,max=255.5", J{"minimum": 0, "maximum": 255.5}, 0, 255)
+	fr("min=0.5,max=100", J{"minimum": 0.5, "maximum": 100}, 1, 100)
+	fr("min=-127.6,max=126.6", J{"minimum": -127.6, "maximum": 126.6}, -127, 126)
+	fr("min=-128.5,max=127.5", J{"minimum": -128.5, "maximum": 127.5}, -128, 127)
+	fr("min=0,exmax=256.4", J{"minimum": 0, "exclusiveMaximum": 256.4}, 0, 256)
+	fr("exmin=-0.5,max=100", J{"exclusiveMinimum": -0.5, "maximum": 100}, 0, 100)
+	fr("exmin=1.5,exmax=7.5", J{"exclusiveMinimum": 1.5, "exclusiveMaximum": 7.5}, 2, 7)
+	fr("exmin=-129.5,exmax=127.5", J{"exclusiveMinimum": -129.5, "exclusiveMaximum": 127.5}, -129, 127)
 	return out
 }
 
@@ -179,8 +194,16 @@ func c15(ctx *Ctx) {
 	// verdict of the flag-off twin per (shape, document), to compare the two programs directly
 	type key struct{ shape, doc string }
 	verdicts := map[key][2]string{}
+	explained := map[key]bool{}
 	runBehaviour(ctx, behaviour{Name: "sized", Cases: cases, Devs: c15Devs,
 		DocGen: func(sc *SCase, m *refmodel.Model) []refmodel.Doc { return c15Docs(shapeOf[sc.ID]) },
+		// zero written as -0: encoding/json refuses a minus sign for every unsigned Go type
+		KnownMismatch: func(sc *SCase, d *refmodel.Doc, o *drv.Obs) string {
+			if d.Class == "num:negative-zero" && sc.Axes["sized"] == "true" && strings.Contains(o.Err, "cannot unmarshal number -0 into Go") {
+				return "NEGATIVE_ZERO_REJECTED_BY_UNSIGNED_TYPE"
+			}
+			return ""
+		},
 		OnProgram: func(sc *SCase, p *batch.Program) {
 			if sc.Axes["sized"] == "true" {
 				c15CheckTypes(ctx, sc, p, wantType[sc.ID])
@@ -198,10 +221,25 @@ func c15(ctx *Ctx) {
 				i = 1
 			}
 			v[i] = "accept"
+			ov := refmodel.Accept
 			if o.Err != "" || o.Panic != "" {
 				v[i] = "reject"
+				ov = refmodel.Reject
 			}
 			verdicts[k] = v
+			if ov != tv {
+				// this side disagrees with the model: the comparison with the model has reported it or attributed it to a listed finding;
+				// when it is a listed finding the two programs differ for that reason, not because of the flag's own logic
+				var listed []string
+				for _, dv := range c15Devs {
+					if ctx.Run.Listed(dv) {
+						listed = append(listed, dv)
+					}
+				}
+				if _, ok := attribute(m, d.V, ov, listed); ok {
+					explained[k] = true
+				}
+			}
 		},
 	})
 	// the same integer schema visited twice by the generator: as the property of a definition, and again when a composite list
@@ -260,6 +298,14 @@ func c15(ctx *Ctx) {
 			continue
 		}
 		n++
+		if v[0] != v[1] && strings.Contains(k.doc, ":-0") && v[0] == "accept" && ctx.Run.Listed("NEGATIVE_ZERO_REJECTED_BY_UNSIGNED_TYPE") {
+			ctx.Run.Count("flag_on_off_pairs_differing_on_negative_zero(listed finding)", 1)
+			continue
+		}
+		if v[0] != v[1] && explained[k] {
+			ctx.Run.Count("flag_on_off_pairs_differing_by_a_listed_finding_of_one_side", 1)
+			continue
+		}
 		if v[0] != v[1] {
 			ctx.Run.Violation("flag-changes-acceptance", fmt.Sprintf("C15/%s: document %s is %sed without --min-sized-ints and %sed with it", k.shape, k.doc, v[0], v[1]),
 				map[string]any{"kind": "decode-pair", "shape": k.shape, "document": k.doc, "without_flag": v[0], "with_flag": v[1]})
@@ -329,6 +375,14 @@ func c15Docs(sh c15Shape) []refmodel.Doc {
 			var v any = num64(n)
 			d := mk(map[string]any{prop: v})
 			d.Class = "num:" + prop
+			out = append(out, d)
+		}
+	}
+	if (sh.lo == nil || sh.lo.Sign() <= 0) && (sh.hi == nil || sh.hi.Sign() >= 0) {
+		// zero written with a sign: the same integer
+		for _, prop := range []string{"r", "o", "n", "d"} {
+			d := mk(map[string]any{prop: jsonNumber("-0")})
+			d.Class = "num:negative-zero"
 			out = append(out, d)
 		}
 	}
